@@ -64,7 +64,16 @@ class Overlay:
                 i += 1
                 continue
             d = parts[0]
-            if d == 'kernel':
+            if d == 'include':
+                inc = Overlay(os.path.join(os.path.dirname(self.path), parts[1]))
+                self.items += inc.items
+                self.pre += inc.pre
+                self.post += inc.post
+                self.contracts.update(inc.contracts)
+                self.loops.update(inc.loops)
+                self.proofs.update(inc.proofs)
+                i += 1
+            elif d == 'kernel':
                 self.name = parts[1]
                 for p in parts[2:]:
                     if p.startswith('serves='):
